@@ -188,16 +188,20 @@ def load_known(pid):
 
 
 def _execution_fault(e):
-    """(where, what) when the exception is an index / unwritten-slot / zero-division fault raised while a frame of the encoded REPOSITORY source was executing, else None"""
+    """(where, what) when the exception is an UNAMBIGUOUS fault of the encoded repository source: an access beyond an extent that the source itself declared (`cdef type[N] x`) or
+    allocated, or a division by an identically zero symbolic quantity, raised while a frame of the repository source was executing. Everything else (IndexError on harness lists,
+    reads of unwritten slots, NameError ...) stays a harness error: it may equally mean that the harness is out of date with respect to a harmless refactoring."""
     import re as _re
-    kinds = (IndexError, ZeroDivisionError)
-    is_none = isinstance(e, TypeError) and 'NoneType' in str(e)
+    ok_kind = False
     try:
         from .pyx2py import ExtentError
-        kinds = kinds + (ExtentError,)
+        if isinstance(e, ExtentError) and getattr(e, 'src_declared', False):
+            ok_kind = True
     except Exception:
         pass
-    if not (isinstance(e, kinds) or is_none):
+    if isinstance(e, ZeroDivisionError) and 'zero polynomial' in str(e):
+        ok_kind = True
+    if not ok_kind:
         return None
     tb = e.__traceback__
     frames = []
@@ -207,7 +211,6 @@ def _execution_fault(e):
     src = [f for f in frames if _re.match(r'^TidalPy/.+\.(pyx|py)(:|$)', f[0])]
     if not src:
         return None
-    # the fault must originate in (or directly below) the repository code, not in harness code that runs after it returned
     last_src = max(i for i, f in enumerate(frames) if f in src)
     if any(('/verif/checks/' in f[0]) for f in frames[last_src + 1:]):
         return None
